@@ -66,6 +66,10 @@ type Field struct {
 	Target   int    `json:"t"`             // name index (dep) or key index (cfg)
 	Optional bool   `json:"opt,omitempty"` // '?' marker
 	Iface    bool   `json:"iface,omitempty"`
+	// Pre: what the field holds BEFORE InjectTo is called: "" (zero) | "foreign" (an instance no container owns) |
+	// "other" (the instance a second provider holds for the same name) | "own" (this container's instance if it
+	// already exists, else a foreign one); cfg fields: any non-empty Pre = a stale string.
+	Pre string `json:"pre,omitempty"`
 }
 
 // Step is one action of a generated factory.
@@ -74,6 +78,7 @@ type Step struct {
 	Target   int     `json:"t,omitempty"`      // get
 	Optional bool    `json:"opt,omitempty"`    // the factory ignores an error of this step
 	Fields   []Field `json:"fields,omitempty"` // inject
+	Pool     string  `json:"pool,omitempty"`   // inject: "" | "before" | "after" (see Req.Pool)
 	Def      *DefOp  `json:"def,omitempty"`    // define (always late: a factory only runs inside a resolution)
 }
 
@@ -95,7 +100,11 @@ type Req struct {
 	Kind   string  `json:"kind"` // get | inject | keys | define
 	Target int     `json:"t,omitempty"`
 	Fields []Field `json:"fields,omitempty"`
-	Def    *DefOp  `json:"def,omitempty"`
+	// Pool: one struct value injected by two providers in turn. "before": a second provider (defining every name)
+	// injects the struct first, then the container under test; "after": the other way round, and the second
+	// provider's instances must then be in the fields.
+	Pool string `json:"pool,omitempty"`
+	Def  *DefOp `json:"def,omitempty"`
 }
 
 // Case is a definition program plus a request program on one container flavour.
@@ -164,6 +173,9 @@ type executor struct {
 	pairRequested  bool
 	requestedNames map[int]int
 	skipped        int64
+
+	aux     app.DependencyProvider // the second provider: every name (also NX) is Set to an instance of its own
+	auxInst map[int]*Inst
 }
 
 var errFactory = errors.New("generated factory failure")
@@ -489,7 +501,68 @@ func (x *executor) descStack() string {
 	return "[" + strings.Join(p, " ") + "]"
 }
 
-func (x *executor) inject(call func(interface{}) error, fields []Field, nested bool) bool {
+// second returns the second provider (built on first use).
+func (x *executor) second() app.DependencyProvider {
+	if x.aux == nil {
+		x.aux = dependency.NewProvider(depTag)
+		x.auxInst = map[int]*Inst{}
+		for n := 0; n <= NNames; n++ {
+			x.auxInst[n] = &Inst{Def: -2, Name: nameOf(n) + "@second-provider"}
+			if err := x.aux.Set(nameOf(n), x.auxInst[n]); err != nil {
+				x.fail("setup", "second provider: %v", err)
+			}
+		}
+	}
+	return x.aux
+}
+
+// prepopulate fills the fields of a fresh target as the case says; it reports which fields are non-zero.
+func (x *executor) prepopulate(obj reflect.Value, fields []Field, nested bool) []bool {
+	pre := make([]bool, len(fields))
+	for i, f := range fields {
+		if f.Pre == "" || f.Tag == "" {
+			continue
+		}
+		fv := obj.Elem().Field(i)
+		if f.Tag == "cfg" {
+			fv.Set(reflect.ValueOf("stale"))
+			pre[i] = true
+			x.labels["prepopulated-cfg-field"] = true
+			continue
+		}
+		n := norm(f.Target)
+		var v *Inst
+		kind := f.Pre
+		switch kind {
+		case "other":
+			x.second()
+			v = x.auxInst[n]
+		case "own":
+			v = x.canonical(n)
+			if v == nil || x.memo[n] == nil {
+				v, kind = nil, "foreign"
+			}
+		default:
+			kind = "foreign"
+		}
+		if v == nil {
+			v = &Inst{Def: -1, Name: "foreign-placeholder"}
+		}
+		fv.Set(reflect.ValueOf(v))
+		pre[i] = true
+		x.labels["prepopulated-field"] = true
+		x.labels["prepopulated-"+kind] = true
+		if f.Optional {
+			x.labels["prepopulated-optional-field"] = true
+		}
+		if nested {
+			x.labels["prepopulated-in-factory"] = true
+		}
+	}
+	return pre
+}
+
+func (x *executor) inject(call func(interface{}) error, fields []Field, nested bool, pool string) bool {
 	fields = capFields(fields)
 	s := x.newSim()
 	pred, res := s.inject(fields)
@@ -515,15 +588,58 @@ func (x *executor) inject(call func(interface{}) error, fields []Field, nested b
 		}
 	}
 	obj := reflect.New(structFor(fields))
+	pre := x.prepopulate(obj, fields, nested)
+	where := "InjectTo"
+	if nested {
+		where = fmt.Sprintf("InjectTo inside the factory of %s (construction stack %s)", nameOf(x.stack[len(x.stack)-1]), x.descStack())
+	}
+	if pool == "before" && len(targets) > 0 {
+		// the struct comes out of another container first (pooled handler, package level deps struct)
+		x.labels["two-providers-second-first"] = true
+		if nested {
+			x.labels["two-providers-in-factory"] = true
+		}
+		if err := x.second().InjectTo(obj.Interface()); err != nil {
+			x.fail("outcome", "%s(%s): the second provider defines every name but its InjectTo failed: %v", where, descFields(fields), err)
+			return false
+		}
+		for i, f := range fields {
+			if f.Tag == "dep" && !obj.Elem().Field(i).IsNil() {
+				pre[i] = true
+			}
+		}
+	}
 	x.pending = append(x.pending, targets)
 	err := call(obj.Interface())
 	x.pending = x.pending[:len(x.pending)-1]
 	if x.viol != nil || x.giveUp {
 		return false
 	}
-	where := "InjectTo"
-	if nested {
-		where = fmt.Sprintf("InjectTo inside the factory of %s (construction stack %s)", nameOf(x.stack[len(x.stack)-1]), x.descStack())
+	if pool == "after" && len(targets) > 0 {
+		// whatever this container left in the fields, the second provider's injection must put ITS instances there
+		x.labels["two-providers-second-last"] = true
+		if nested {
+			x.labels["two-providers-in-factory"] = true
+		}
+		cp := reflect.New(obj.Elem().Type())
+		cp.Elem().Set(obj.Elem())
+		if err2 := x.second().InjectTo(cp.Interface()); err2 != nil {
+			x.fail("outcome", "%s(%s): the second provider defines every name but its InjectTo failed: %v", where, descFields(fields), err2)
+			return false
+		}
+		for i, f := range fields {
+			if f.Tag != "dep" {
+				continue
+			}
+			var got interface{}
+			if fv := cp.Elem().Field(i); !fv.IsNil() {
+				got = fv.Interface()
+			}
+			if gi, _ := got.(*Inst); gi == nil || gi != x.auxInst[norm(f.Target)] {
+				x.fail("same-instance", "%s(%s) then InjectTo of the same struct by a second provider: field %d (%s) holds %s, want the second provider's instance of %s", where, descFields(fields), i, nameOf(f.Target), descInst(got), nameOf(f.Target))
+				return false
+			}
+		}
 	}
 	if pred && err != nil {
 		x.fail("outcome", "%s(%s) failed but must succeed (earlier failed/optional resolutions in this case: %d): %v", where, descFields(fields), x.failures, err)
@@ -549,6 +665,10 @@ func (x *executor) inject(call func(interface{}) error, fields []Field, nested b
 				if x.checkValue(n, v, fmt.Sprintf("%s field %d", where, i)) == nil {
 					return false
 				}
+			} else if pre[i] {
+				// an optional field that held something before the call and cannot be resolved: the statement
+				// does not say whether the old content stays or is cleared
+				x.labels["prepopulated-optional-unresolved"] = true
 			} else if !fv.IsNil() {
 				x.fail("outcome", "%s(%s): optional field %d (%s) cannot be resolved but was set to %s", where, descFields(fields), i, nameOf(n), descInst(fv.Interface()))
 				return false
@@ -649,7 +769,7 @@ func (x *executor) runFactory(d *rdef, dp app.DependencyProvider) (interface{}, 
 		case "inject":
 			x.edgesRun++
 			x.labels["inject-in-factory"] = true
-			ok = x.inject(dp.InjectTo, st.Fields, true)
+			ok = x.inject(dp.InjectTo, st.Fields, true, st.Pool)
 		case "define":
 			if st.Def != nil {
 				x.labels["late-definition-in-factory"] = true
@@ -898,7 +1018,7 @@ func run(c Case) hx.Verdict {
 					x.requestedNames[norm(f.Target)]++
 				}
 			}
-			x.inject(x.injectTo, r.Fields, false)
+			x.inject(x.injectTo, r.Fields, false, r.Pool)
 		case "keys":
 			if _, err := x.dp.Keys(); err != nil {
 				x.skipped++
